@@ -99,6 +99,11 @@ func DeepRoots(v ssa.Value) []string {
 				for _, a := range x.Call.Args {
 					walk(a, d+1)
 				}
+			} else if h := x.Call.StaticCallee(); h != nil && PureValueHelper(h) {
+				// an expression extracted into a helper of the module: a function of its arguments
+				for _, a := range x.Call.Args {
+					walk(a, d+1)
+				}
 			}
 			return
 		case *ssa.Extract:
@@ -1382,4 +1387,43 @@ func storesGlobal(fn *ssa.Function, g *ssa.Global) bool {
 		}
 	}
 	return false
+}
+
+// PureValueHelper: a module function whose results are a function of its arguments only — no
+// stores, map updates, sends, goroutines or defers, no loads of package-level variables, and
+// every call inside is to math/strconv/builtin/time conversions or to another such helper.
+func PureValueHelper(f *ssa.Function) bool { return pureValueHelper(f, 2) }
+
+func pureValueHelper(f *ssa.Function, depth int) bool {
+	if f == nil || f.Blocks == nil || f.Pkg == nil || !IsModule(f.Pkg.Pkg.Path()) || depth < 0 {
+		return false
+	}
+	for _, b := range f.Blocks {
+		for _, in := range b.Instrs {
+			switch x := in.(type) {
+			case *ssa.Store, *ssa.MapUpdate, *ssa.Send, *ssa.Go, *ssa.Defer, *ssa.Select, *ssa.Panic:
+				return false
+			case *ssa.UnOp:
+				if x.Op == token.ARROW {
+					return false
+				}
+				if x.Op == token.MUL {
+					if _, isG := x.X.(*ssa.Global); isG {
+						return false
+					}
+				}
+			case *ssa.Call:
+				n := CalleeName(x.Common())
+				if strings.HasPrefix(n, "math.") || strings.HasPrefix(n, "strconv.") || strings.HasPrefix(n, "builtin.len") || strings.HasPrefix(n, "builtin.cap") ||
+					strings.HasPrefix(n, "builtin.min") || strings.HasPrefix(n, "builtin.max") {
+					continue
+				}
+				if h := x.Call.StaticCallee(); h != nil && h != f && pureValueHelper(h, depth-1) {
+					continue
+				}
+				return false
+			}
+		}
+	}
+	return true
 }
